@@ -65,9 +65,10 @@ class SStr(object):
     """str or bytes as a z3 String term.  bytes carry the (assumed at creation)
     constraint that every char is < 256."""
 
-    def __init__(self, term, is_bytes):
+    def __init__(self, term, is_bytes, known_len=None):
         self.term = term
         self.is_bytes = is_bytes
+        self.known_len = known_len   # concrete length when a model fact fixes it (hash digests)
 
     def __repr__(self):
         return "<SStr %s %s>" % ("bytes" if self.is_bytes else "str", self.term)
